@@ -84,3 +84,20 @@ Definition pipe_corr (c : pipe_case) : bool :=
 
 (* for replays: what the machine computes *)
 Definition pipe_model (c : pipe_case) := let '(o, h, _, _) := c in (pipe_view o h, csv_render (pipe_view o h)).
+
+(* ---- programs that mutate items and update cells (Model/TableMut.v): the
+   view read back from the real table after the program must be the mutation
+   machine's - texts and sizes as cached at the last read, encodings as the
+   objects are now *)
+From Tab Require Export Model.TableMut.
+
+Definition pipe_mhist := (list N -> nat) -> env -> list mop.
+Definition pipe_mcase := (pipe_oracle * pipe_mhist * view)%type.
+
+Definition pipe_mview (o : pipe_oracle) (h : pipe_mhist) : view :=
+  let W := lookup_w (po_w o) in
+  let e := env_of (po_env o) in
+  mview W (json_of o) (mrun e (h W e)).
+
+Definition pipe_mcorr (c : pipe_mcase) : bool :=
+  let '(o, h, obs) := c in view_eqb (pipe_mview o h) obs.
